@@ -53,7 +53,8 @@ def run(ctx):
                     want_tail = [("arg", 3), ("arg", 4)] if stateless else [("arg", 2), ("arg", 3)]
                     ok = a[-2:] == want_tail and (not stateless or a[1] == ("arg", 2))
                 ctx.ob("whole-message", "%s::%s" % (ty.split("::")[-1], op), ok, "%s forwards input and output unchanged" % op if ok else "%s alters its input/output on the way to %s" % (op, inner), where(fn), cfg)
-        spec_templates.run_templates(ctx, cfg, names=("CipherState::encrypt_ad", "CipherState::decrypt_ad", "StatelessCipherState::encrypt_ad", "StatelessCipherState::decrypt_ad"))
+        spec_templates.run_templates(ctx, cfg, names=("CipherState::encrypt_ad", "CipherState::decrypt_ad", "StatelessCipherState::encrypt_ad", "StatelessCipherState::decrypt_ad",
+                                                  "CipherState::encrypt", "CipherState::decrypt", "StatelessCipherState::encrypt", "StatelessCipherState::decrypt"))
         aead.check_wrappers(ctx, cfg, {"nonce": 1, "operands": 1, "error": 1, "no-leak": 0})
         P = ctx.lenproof(cfg)
         m = 0
